@@ -8,6 +8,7 @@ EXPLANATION = (
     "staged / pending relationships, called in the same function or its callees). The read-side overlay semantics (hiding relationships whose "
     "endpoint was deleted in the same run) is runtime behaviour and is not decided; C06 covers only direction symmetry."
     " C14.3: every node a MERGE candidate enumeration yields has passed a deleted_nodes test of the statement overlay (the true arm cannot reach the push), so MERGE cannot bind a node the same statement deleted."
+    " C14.4 (= C06.3): the staged adjacency maps are keyed by the right endpoint, so an edge created and deleted in one transaction leaves both."
 )
 
 Q = "nervusdb_query::executor::create_delete_ops::"
